@@ -179,21 +179,24 @@ Theorem disp_shapes_sound (sz : Z -> Z) (l : list disp_array) :
   disp_shapes_ok sz l = true ->
   forall a p, In a l -> In p powers ->
   da_rows a (sz p) <= sz p /\
+  (forall ar, In ar (da_arity a) -> da_rows a (sz p) * ar = da_rcols a p (sz p)) /\
   forall y, 0 <= y < da_rows a (sz p) ->
   forall ar, In ar (da_arity a) ->
     (da_hi a (sz p) y - da_lo a (sz p) y) * ar = da_rcols a p (sz p)
-    /\ 0 <= da_lo a (sz p) y /\ da_hi a (sz p) y <= sz p * sz p.
+    /\ da_lo a (sz p) y = sz p * y /\ da_hi a (sz p) y <= sz p * sz p.
 Proof.
   intros H a p Ha Hp. unfold disp_shapes_ok in H. rewrite forallb_forall in H. specialize (H a Ha).
   unfold array_ok_all_powers in H. rewrite forallb_forall in H. specialize (H p Hp).
   unfold array_ok in H. cbv zeta in H.
+  apply andb_prop in H as [H Hrows]. apply andb_prop in H as [H Hsq].
   repeat (apply andb_prop in H as [H ?]).
-  split; [lia|]. intros y Hy ar Har.
-  match goal with Hr : forallb (row_ok _ _ _) _ = true |- _ => rewrite forallb_forall in Hr; specialize (Hr y) end.
-  match goal with Hr : In y _ -> _ |- _ =>
-    assert (Hrow : row_ok sz a p y = true) by (apply Hr; apply in_zrange; lia) end.
-  unfold row_ok in Hrow. cbv zeta in Hrow. repeat (apply andb_prop in Hrow as [Hrow ?]).
-  rewrite forallb_forall in Hrow. specialize (Hrow ar Har). lia.
+  split; [lia|]. split.
+  - intros ar Har. rewrite forallb_forall in Hsq. specialize (Hsq ar Har). lia.
+  - intros y Hy ar Har.
+    rewrite forallb_forall in Hrows.
+    assert (Hrow : row_ok sz a p y = true) by (apply Hrows; apply in_zrange; lia).
+    unfold row_ok in Hrow. cbv zeta in Hrow. repeat (apply andb_prop in Hrow as [Hrow ?]).
+    rewrite forallb_forall in Hrow. specialize (Hrow ar Har). lia.
 Qed.
 
 (** * Rounding: the decimal text denotes a number within half a unit of the last place *)
